@@ -174,7 +174,7 @@ def _run_main6(ctx):
         # ... and every event source is registered under the token whose dispatch arm reads that source
         def tok(t):
             return t if not t.startswith('mio::Token(') or t == 'mio::Token(0)' else 'mio::Token(<channel id>)'
-        pairs = sorted(set(((x[3].get('gargs') or ['?'])[0], tok(x[2])) for x in panics.registrations(ctx) if x[1] in ('register', 'reregister')))
+        pairs = sorted(set((x[5], tok(x[2])) for x in panics.registrations(ctx) if x[1] in ('register', 'reregister')))
         RX = 'mio_extras::channel::Receiver<'
         want_pairs = sorted([(RX + 'std::option::Option<u16>>', 'io_loop::ALLOC_CHANNEL'), (RX + 'io_loop::IoLoopMessage>', 'mio::Token(0)'), (RX + 'io_loop::IoLoopMessage>', 'mio::Token(<channel id>)'),
                              (RX + 'crossbeam_channel::Sender<connection::ConnectionBlockedNotification>>', 'io_loop::SET_BLOCKED_TX'),
